@@ -122,6 +122,13 @@ cases.append(("C-FIND (Patient Root): Pending, then Warning 0xB001 (final outsid
               [(1, rsp_find(0xFF00, good)), (1, rsp_find(0xB001)), (1, rsp_find(0x0000))], 2))
 cases.append(("C-FIND (Repository Query): Pending, 0xB001 (not final there), Success", "find-repo", ImplicitVRLittleEndian,
               [(1, rsp_find(0xFF00, good)), (1, rsp_find(0xB001)), (1, rsp_find(0x0000))], 3))
+# a message of the wrong kind after a Pending response: the documented (empty Dataset, None), not the previous response again
+_echo = C_ECHO()
+_echo.MessageIDBeingRespondedTo, _echo.Status = 1, 0x0000
+cases.append(("C-FIND: Pending, then a C-ECHO response (an invalid response for this operation)", "find", ImplicitVRLittleEndian,
+              [(1, rsp_find(0xFF00, good)), (1, _echo), (1, rsp_find(0x0000))], 2))
+cases.append(("C-GET: Pending, then a C-ECHO response (an invalid response for this operation)", "get", ImplicitVRLittleEndian,
+              [(1, rsp_get(0xFF00)), (1, _echo), (1, rsp_get(0x0000))], 2))
 import inspect  # noqa: E402
 import logging  # noqa: E402
 from pynetdicom.sop_class import RepositoryQuery  # noqa: E402
@@ -152,7 +159,8 @@ for desc, which, ts, script, want in cases:
     except Exception as e:
         err = e
     broken = [i for i, x in enumerate(items) if not usable(x[1])]
-    if "invalid response" in desc and not err and len(items) == want and ("abort" not in log or items[-1][1] is not None):
+    if "invalid response" in desc and not err and len(items) == want and ("abort" not in log or items[-1][1] is not None
+                                                                       or len(items[-1][0]) != 0):      # the documented EMPTY status
         bad = dict(input=desc, observed={"items": [(getattr(st, "Status", None), idn is not None) for st, idn in items], "log": log},
                    expected="the last item is (empty Dataset, None) and the association is aborted")
         break
